@@ -173,8 +173,8 @@ CHECKS.update({
 
 CHECKS.update({
     "C05": {
-        "technique": "exact draw-tree enumeration: the random module seen by RandomGen is scripted and ALL sequences of randrange outcomes of one candidate are explored with Fraction probabilities; Hypothesis generates the designs",
-        "text": ("For generated designs whose complete draw tree has at most 4000 (thorough 40000) leaves, RandomGen.sample(block, 1) is re-run for every script of randrange outcomes; "
+        "technique": "exact draw-tree enumeration: the random module seen by RandomGen is scripted and ALL sequences of randrange outcomes of one candidate are explored with Fraction probabilities; Hypothesis generates the designs (random designs, feature-interaction scenarios, round-structure skeletons)",
+        "text": ("For generated designs whose complete draw tree has at most 5000 (thorough 40000) leaves, RandomGen.sample(block, 1) is re-run for every script of randrange outcomes; "
                  "leaf probabilities must sum to 1 (self-check), every accepted candidate must be a valid sequence, every valid sequence must be reachable, and probability mass divided by the "
                  "reference multiplicity must be identical for all sequences - exact uniformity of one requested sample, not a statistical test. Sampled designs, exhaustive per design."),
         "note": REFNOTE + "trusts random.randrange to be uniform; open findings F09a, F09b, F10 (non-uniform leftover rounds), F12 excluded by shape",
@@ -219,7 +219,7 @@ CHECKS.update({
         "note": "Nest with preamble trials, constraints on sustained factors, outer constraints other than Exclude and Excludes acting across members are ambiguous in the documentation and excluded (counted); open findings F09a, F12 excluded by shape",
     },
     "C26": {
-        "technique": "Hypothesis generator of Repeat/Merge/Nest with constraints placed on member blocks or on the combinator; reference scoping (repetition windows incl. preamble) as validity and exhaustion oracle; metamorphic member-vs-combinator placement",
+        "technique": "Hypothesis generator (stratified skeleton over preamble x repetitions x constraint kind x placement {member, combinator, both} x target, plus random combinator designs) of Repeat/Merge/Nest with constraints placed on member blocks and/or on the combinator; reference scoping (repetition windows incl. preamble) as validity and exhaustion oracle; metamorphic member-vs-combinator placement",
         "text": ("Member-block constraints must hold in every repetition window of that block (its length, stepping by length minus preamble), combinator constraints over the whole sequence: "
                  "checked on every model of the compiled formula (capped), on IterateSATGen/RandomGen output, and by exhaustion equality with the reference when small. Metamorphic: moving an "
                  "AtMostKInARow from the member block to the combinator may only remove sequences, and must remove some exactly when the reference distinguishes the placements. Sampled."),
